@@ -127,9 +127,10 @@ func (opts *serveOpts) run(cmd *cobra.Command, args []string) error {
 	godbg.SignalTrace()
 	ctx, cancel := context.WithCancel(ctx)
 	cleanShutdown := make(chan struct{})
+	// register for the signals before the server can accept a request, a signal that arrives first would end the process
+	sig := make(chan os.Signal, 1)
+	signal.Notify(sig, os.Interrupt, syscall.SIGTERM)
 	go func() {
-		sig := make(chan os.Signal, 1)
-		signal.Notify(sig, os.Interrupt, syscall.SIGTERM)
 		select {
 		case <-sig:
 		case <-ctx.Done():
